@@ -321,3 +321,7 @@ def run(prog: Program, res: Result) -> None:  # noqa: PLR0912, PLR0915
     check_context_manager_pairing(prog, res, "C01.R6")
     res.rule("C01.R7", "explicit whitespace control applies to the text next to the marked tag: each parse_block of a multi-block tag (if/elsif/else, case/when, for/else …) is entered with the trim carry of the tag immediately before that block (shared with C18.R4)")
     check_trim_carry_ownership(prog, res, "C01.R7")
+    res.rule("C01.R8", "a name bound to nil/false/0/'' is bound: the scope chain and the context's lookup functions decide presence from the failed key lookup, never from the looked-up value, so an inner nil binding shadows an outer binding of the same name (shared with C16.R6)")
+    from checks.shared import check_presence_by_key
+
+    check_presence_by_key(prog, res, "C01.R8")
